@@ -39,6 +39,42 @@ fn fee_tables() -> Vec<(String, Fees)> {
         ("testnet".to_string(), Fees::testnet()),
         ("default".to_string(), Fees::default()),
     ];
+    // every field with its own value (in two different orders of magnitude per endpoint), so
+    // that a field read from another endpoint's entry shows
+    v.push((
+        "distinct-per-field A".to_string(),
+        Fees {
+            get_utxos_base: 101,
+            get_utxos_cycles_per_ten_instructions: 3,
+            get_utxos_maximum: 10_007,
+            get_balance: 211,
+            get_balance_maximum: 251,
+            get_current_fee_percentiles: 307,
+            get_current_fee_percentiles_maximum: 409,
+            send_transaction_base: 503,
+            send_transaction_per_byte: 7,
+            get_block_headers_base: 601,
+            get_block_headers_cycles_per_ten_instructions: 5,
+            get_block_headers_maximum: 20_011,
+        },
+    ));
+    v.push((
+        "distinct-per-field B".to_string(),
+        Fees {
+            get_utxos_base: 9_001,
+            get_utxos_cycles_per_ten_instructions: 11,
+            get_utxos_maximum: 9_901,
+            get_balance: 5_003,
+            get_balance_maximum: 6_007,
+            get_current_fee_percentiles: 71,
+            get_current_fee_percentiles_maximum: 97,
+            send_transaction_base: 13,
+            send_transaction_per_byte: 1_009,
+            get_block_headers_base: 17,
+            get_block_headers_cycles_per_ten_instructions: 2,
+            get_block_headers_maximum: 131,
+        },
+    ));
     for base in [0u128, 1, 50_000_000] {
         for rate in [0u128, 1, 10] {
             for extra in [0u128, 1, 1_000, 10_000_000_000] {
@@ -350,7 +386,7 @@ pub fn run(tier: &str) -> i32 {
         "cycles_available": "10000000000", "expected": "50000000 + min(100*10, 10000000000-50000000)"}));
     rep.out.merge(out);
     rep.evaluations = rep.out.states;
-    rep.rule = "fee tables {mainnet, testnet, default} U product base x rate x (maximum - base) x flat (maximum >= base) x instruction counter {0,9,10,11,99,10^3,10^9,4*10^10} x endpoint (5 update + 2 query) x one success and every request-level error x payload lengths x available cycles {0, max-1, max, max+1, 2^127} on three networks; plus the client-side cost functions of ic-cdk-bitcoin-canister against the default tables".into();
+    rep.rule = "fee tables {mainnet, testnet, default} U two tables with a distinct value in every field U product base x rate x (maximum - base) x flat (maximum >= base) x instruction counter {0,9,10,11,99,10^3,10^9,4*10^10} x endpoint (5 update + 2 query) x one success and every request-level error x payload lengths x available cycles {0, max-1, max, max+1, 2^127} on three networks; plus the client-side cost functions of ic-cdk-bitcoin-canister against the default tables".into();
     rep.bounds = json!({"tier": tier, "fee_tables": tables.len()});
     rep.assume("maximum >= base (the statement is undefined below that)");
     rep.assume("for send_transaction errors only base <= charged <= base + per_byte*len is demanded (statement and formula coincide only if the per-byte part counts as base)");
